@@ -423,3 +423,76 @@ func VerifHTMLCaseAttr(n int) {
 	}
 	vReach("end")
 }
+
+// HTML, the input element's value attribute modes: without a value attribute a checkbox / radio submits "on" and a
+// submit / reset button shows its default label, so value="" is not a default there; for the text-like types, hidden,
+// image, file and button the empty value equals the missing one.
+var verifInputTypes = []struct {
+	name     string
+	keepsVal bool
+}{{"checkbox", true}, {"radio", true}, {"submit", true}, {"reset", true}, {"CheckBox", true}, {"SUBMIT", true}, {"text", false}, {"hidden", false}, {"search", false}, {"email", false},
+	{"number", false}, {"range", false}, {"color", false}, {"password", false}, {"date", false}, {"button", false}, {"image", false}, {"file", false}}
+
+// attributes whose value is free text or a regular expression: every byte of white space is significant
+var verifExactAttrs = []string{"pattern", "value", "placeholder", "title", "alt", "label", "content", "data-x", "aria-label"}
+
+// VerifHTMLInputValue (C03): n = 0: <input type=T value=""> for 18 types (and the two attribute orders);
+// n >= 1: <input ATTR="V"> with V of n units out of { space, two spaces, a, b, tab }: the decoded value is unchanged.
+func VerifHTMLInputValue(n int) {
+	o := &Minifier{KeepDefaultAttrVals: vBool("KeepDefaultAttrVals"), KeepQuotes: vBool("KeepQuotes")}
+	if n == 0 {
+		t := verifInputTypes[vChoice("type", len(verifInputTypes))]
+		var in []byte
+		if vBool("valuefirst") {
+			in = append(append([]byte("<input value=\"\" type="), t.name...), ">t"...)
+		} else {
+			in = append(append([]byte("<input type="), t.name...), " value=\"\">t"...)
+		}
+		out, err := verifHTMLRun(in, o)
+		vReach("after-call")
+		vOutput("out", out)
+		vAssert(err == nil, "accepted")
+		_, attrs, _, ok := rhStartTag(out)
+		vAssert(ok, "output starts with a complete start tag")
+		has := false
+		for _, a := range attrs {
+			if rhEq(a.name, []byte("value")) {
+				has = true
+				vAssert(len(a.val) == 0, "value stays empty")
+			}
+		}
+		if t.keepsVal {
+			vAssert(has, "value=\"\" differs from a missing value for type="+t.name+": "+string(out))
+		}
+		vReach("end")
+		return
+	}
+	at := verifExactAttrs[vChoice("attr", len(verifExactAttrs))]
+	var v []byte
+	for i := 0; i < n; i++ {
+		v = append(v, []string{" ", "  ", "a", "b", "\t"}[vChoice("u"+string(rune('0'+i)), 5)]...)
+	}
+	tag := "input"
+	if at == "content" {
+		tag = "meta"
+	} else if at == "label" {
+		tag = "option"
+	}
+	in := append(append(append(append(append([]byte("<"), tag...), ' '), at...), "=\""...), v...)
+	in = append(in, "\">t"...)
+	out, err := verifHTMLRun(in, o)
+	vReach("after-call")
+	vOutput("out", out)
+	vAssert(err == nil, "accepted")
+	_, attrs, _, ok := rhStartTag(out)
+	vAssert(ok, "output starts with a complete start tag")
+	found := false
+	for _, a := range attrs {
+		if rhEq(a.name, []byte(at)) {
+			found = true
+			vAssert(rhEq(a.val, v), "free-text attribute value unchanged: "+at+"=\""+string(v)+"\" => "+string(out))
+		}
+	}
+	vAssert(found, "attribute kept: "+string(out))
+	vReach("end")
+}
